@@ -460,7 +460,7 @@ class SubscriptionManagerHistory(Obligation):
         from models_coll import MapM
         ctx.on_enqueue = typed_reply
         U = ctx.tok_ufs
-        pstate = Cell(mk(ctx, 'PushSubscriptionsRegistryState', push_subscriptions=MapM([])), 'pstate')
+        pstate = Cell(mk_single(ctx, 'PushSubscriptionsRegistryState', MapM([])), 'pstate')
         reg = mk(ctx, 'PushSubscriptionsRegistry', state=ArcCell(Cell(LockM('push_registry.state', pstate))))
         mgr = run_to_end(ip.call_fn(ctx.fn('SubscriptionManager', 'new'), [reg]))
         mcell = Cell(mgr, 'manager')
